@@ -40,9 +40,9 @@ CHECKS = {
                         "integer-valued delays in the lockstep histories; dyadic rationals in the kernel differential"],
     },
     "C06": {
-        "extra_props": ["Props/C06_machine.v"],
-        "modules": ["p_c06r", "p_c06m", "p_c06p", "p_c06z", "p_c06b"],
-        "rule": "p_c06p / p_c06z / p_c06b: the lockstep families of C08 (cancel() of poll futures: cancel function, veto, deregistration), C15 and C14 (cancelling the output of f_zip / f_or / f_and with inputs pending, running, done, duplicated) with the cancel-related verdicts of their monitors; retry: seeded scenarios as C05 plus 0-2 cancel() calls per future at random virtual delays / after k delegate "
+        "extra_props": ["Props/C06_machine.v", "Props/MapFut_E.v"],
+        "modules": ["p_c06r", "p_c06m", "p_c06p", "p_c06z", "p_c06b", "p_c06t"],
+        "rule": "p_c06t: the Throttle lockstep family (C07) with the cancel verdicts (a queued future whose cancel() returned True is never handed over); p_c06p / p_c06z / p_c06b: the lockstep families of C08 (cancel() of poll futures: cancel function, veto, deregistration), C15 and C14 (cancelling the output of f_zip / f_or / f_and with inputs pending, running, done, duplicated) with the cancel-related verdicts of their monitors; retry: seeded scenarios as C05 plus 0-2 cancel() calls per future at random virtual delays / after k delegate "
                 "submissions, from separate threads; every history replayed on Model/Retry.v; distinct = distinct event traces; "
                 "non-trivial = a cancel() call was issued and a preemption occurred",
         "assumptions": ["delegate executor, callable outcomes, policy answers and the clock are environment"],
@@ -80,9 +80,9 @@ CHECKS = {
         "assumptions": ["inputs are plain stdlib futures driven by the environment"],
     },
     "C16": {
-        "modules": ["p_c16"],
+        "modules": ["p_c16", "p_c16m"],
         "gen_lemmas": ["runner_insert_at = 0", "apply_recurses_on_tail"],
-        "rule": "seeded scenarios: f_apply with 0-4 positional x 0-3 keyword argument futures, each already done or completed later by 1-3 "
+        "rule": "p_c16m: the MapFuture / FlatMapFuture lockstep family (C13) underneath f_apply; seeded scenarios: f_apply with 0-4 positional x 0-3 keyword argument futures, each already done or completed later by 1-3 "
                 "environment threads in a random order, one failing input at any position (incl. the function future) or none, a function "
                 "that records its arguments (non-commutative) and may raise; x {random, sticky, PCT} schedules; monitor: one call, after all "
                 "inputs resolved, arguments in place, failure identity; non-trivial = >= 2 arguments and a preemption",
@@ -109,8 +109,8 @@ CHECKS = {
     },
     "C01": {
         "extra_props": ["Props/C01_link.v"],
-        "modules": ["p_c01"],
-        "rule": "seeded random stacks: depth 1-6 over {map, flat_map, poll, retry, throttle, timeout, cancel_on_shutdown} in any order, "
+        "modules": ["p_c01", "p_c01r", "p_c01m", "p_c01p"],
+        "rule": "p_c01r / p_c01m / p_c01p: the single-layer lockstep families of C05, C13, C08 with the own-outcome verdicts of their monitors; seeded random stacks: depth 1-6 over {map, flat_map, poll, retry, throttle, timeout, cancel_on_shutdown} in any order, "
                 "base sync or the real ThreadPoolExecutor (1-3 workers) run under the scheduler, 1-4 submissions from 1-3 client threads, "
                 "per-invocation outcome scripts for the callable, raising map/flat_map functions; x {random, sticky, PCT} schedules; each "
                 "submission's outcome (value / exception identity), invocation count and arguments compared with Stack.seq_eval evaluated by "
@@ -130,8 +130,8 @@ CHECKS = {
     },
     "C04": {
         "extra_props": ["Props/C04_retry.v", "Props/C04_poll.v", "Props/C04_throttle.v", "Props/C04_timeout.v"],
-        "modules": ["p_c04", "p_c04r"],
-        "rule": "p_c04r: the Retry lockstep family (C05) with the pending / late / deadlock verdicts (a result() or shutdown(wait=True) that would wait for ever on the submit thread); p_c04: seeded scenarios on real stacks: depth 1-4 over the seven layer kinds, base sync or the real ThreadPoolExecutor, client programs "
+        "modules": ["p_c04", "p_c04r", "p_c04t", "p_c04p", "p_c04o", "p_c04c", "p_c04m", "p_c04b"],
+        "rule": "p_c04t / p_c04p / p_c04o / p_c04c / p_c04m / p_c04b: the lockstep families of C07, C08, C09, C10, C13, C14 (every component machine) with the deadlock / dead-thread verdicts of their monitors; p_c04r: the Retry lockstep family (C05) with the pending / late / deadlock verdicts (a result() or shutdown(wait=True) that would wait for ever on the submit thread); p_c04: seeded scenarios on real stacks: depth 1-4 over the seven layer kinds, base sync or the real ThreadPoolExecutor, client programs "
                 "of 1-3 threads x 1-4 operations {submit, submit whose callable submits again, cancel, add_done_callback, add_done_callback "
                 "whose callback submits again, result}, map functions that submit again, optional shutdown thread; x {random, sticky, PCT} "
                 "schedules; deadlock = every unfinished thread blocked and no timer (or only periodic timers firing for ever); each deadlock is "
@@ -139,8 +139,9 @@ CHECKS = {
         "assumptions": ["PARTIAL: the lock-order theorem is proved for arbitrary lock programs; that the library's composed lock programs respect one order (outside G10) is decided by the explored schedules, not proved"],
     },
     "C03": {
-        "modules": ["p_c03", "p_c03t", "p_c03h", "p_c03p", "p_c03r"],
-        "rule": "p_c03t / p_c03h / p_c03p / p_c03r: the lockstep scenario families of C09 / C07 / C08 / C05 (mixed timeouts on one executor, delegate completions against the hand-over thread's check/wait/clear, registrations and notify() against the poll thread's, attempts finishing against the submit thread's) replayed on the component machines, with the lost-future / late verdicts of their monitors; p_c03: seeded scenarios on real stacks (depth 1-4, sync / real thread pool) with a virtual clock: callables that succeed, fail "
+        "extra_props": ["Props/MapFut_E.v"],
+        "modules": ["p_c03", "p_c03t", "p_c03h", "p_c03p", "p_c03r", "p_c03m", "p_c03c", "p_c03z"],
+        "rule": "p_c03m / p_c03c / p_c03z: the lockstep families of C13, C14, C15 (MapFuture / FlatMapFuture, f_or / f_and, f_zip over environment futures) with the lost-output verdicts of their monitors; p_c03t / p_c03h / p_c03p / p_c03r: the lockstep scenario families of C09 / C07 / C08 / C05 (mixed timeouts on one executor, delegate completions against the hand-over thread's check/wait/clear, registrations and notify() against the poll thread's, attempts finishing against the submit thread's) replayed on the component machines, with the lost-future / late verdicts of their monitors; p_c03: seeded scenarios on real stacks (depth 1-4, sync / real thread pool) with a virtual clock: callables that succeed, fail "
                 "(retries with back-off), block until t=2, futures cancelled through the returned future at t=0/1/2, small (3) or "
                 "effectively infinite timeouts; x {random, sticky, PCT} schedules; monitor: every returned future is terminal when nothing "
                 "can happen any more, and finished no later than the virtual time implied by the configured delays (so a lost wake-up that "
@@ -235,10 +236,10 @@ CHECKS = {
                         "and is known finding P2; the set is proved exact relative to the snapshot (c08_descriptor_exact_at_snapshot)"],
     },
     "C18": {
-        "modules": ["p_c18", "p_c18m", "p_c18p", "p_c18r", "p_c18c", "p_c18t"],
+        "modules": ["p_c18", "p_c18m", "p_c18p", "p_c18r", "p_c18c", "p_c18t", "p_c18b", "p_c18z"],
         "extra_props": ["Props/Comb_F.v", "Props/C06_machine.v"],
         "gen_lemmas": [],
-        "rule": "p_c18c / p_c18t: the lockstep families of C06 (retry: cancel() racing with the submit thread) and C07 (throttle: raising / changing count "
+        "rule": "p_c18b / p_c18z: the combinator lockstep families of C14 / C15 with the dead-thread / raising-constructor verdicts; p_c18c / p_c18t: the lockstep families of C06 (retry: cancel() racing with the submit thread) and C07 (throttle: raising / changing count "
                 "callables, blocking submit) with their fault verdicts (thread died, submit() or cancel() raised); p_c18m / p_c18p / p_c18r: the lockstep scenario families of C02+C13 (raising fn / error_fn / done-callbacks, several callbacks "
                 "per future), C08 (raising poll and cancel functions, concurrent cancels) and C05 (raising policy methods and callables) replayed "
                 "on Model/MapFut.v, Model/Poll.v, Model/Retry.v - a dying thread or an escaping exception is an event those machines reject - "
